@@ -43,19 +43,22 @@ def rd (m : Mem) (a : Nat) : Nat :=
   | some v => v
   | none => 0
 
-/-- one write port; out-of-range writes are dropped -/
-def wr1 (g n : Nat) (m : Mem) (w : Wr) : Mem :=
+/-- the row after a write `w` over `old`, with granularity: chunks of `g` bits, `n` of them -/
+def mergeW (g n : Nat) (old : Nat) (w : Wr) : Nat := merge g n old w.data w.mask
+
+/-- one write port; `f old w` is the new row; out-of-range writes are dropped -/
+def wr1 (f : Nat → Wr → Nat) (m : Mem) (w : Wr) : Mem :=
   match m[w.addr]? with
-  | some old => m.set w.addr (merge g n old w.data w.mask)
+  | some old => m.set w.addr (f old w)
   | none => m
 
-def wrOpt (g n : Nat) (m : Mem) : Option Wr → Mem
-  | some w => wr1 g n m w
+def wrOpt (f : Nat → Wr → Nat) (m : Mem) : Option Wr → Mem
+  | some w => wr1 f m w
   | none => m
 
 /-- all write ports of one cycle, in port order -/
-def wrAll (g n : Nat) (m : Mem) (ws : List (Option Wr)) : Mem :=
-  ws.foldl (wrOpt g n) m
+def wrAll (f : Nat → Wr → Nat) (m : Mem) (ws : List (Option Wr)) : Mem :=
+  ws.foldl (wrOpt f) m
 
 /-- addresses used by the write calls of one cycle -/
 def wrAddrs (ws : List (Option Wr)) : List Nat :=
